@@ -3,7 +3,15 @@
 import json, os
 HERE = os.path.dirname(os.path.abspath(__file__))
 ALL = [f"C{i:02d}" for i in range(1, 21)]
-desc = json.load(open(os.path.join(HERE, "manifest_checks.json")))
+import glob
+desc = {}
+for f in sorted(glob.glob(os.path.join(HERE, "manifest_checks.d", "C*.json"))):
+    desc[os.path.basename(f)[:-5]] = json.load(open(f))
+# merged, human-readable copy of the per-property known-findings files (never written by checks)
+kf = []
+for f in sorted(glob.glob(os.path.join(HERE, "known_findings.d", "C*.json"))):
+    kf += json.load(open(f))
+json.dump(kf, open(os.path.join(HERE, "known_findings.json"), "w"), indent=1)
 checks, na = [], []
 for p in ALL:
     d = desc.get(p)
